@@ -39,14 +39,14 @@ TRUSTED_BASE = [
     "one IOLoop turn (ELoop) = the callbacks queued with IOLoop.add_callback so far run in FIFO order (asyncio call_soon order)",
     "future-callback invocations are observed by wrapping tornado.process.future_set_result_unless_cancelled / future_set_exception_unless_cancelled (they log, then delegate)",
     "os.WIFSIGNALED / WTERMSIG / WIFEXITED / WEXITSTATUS are the real CPython/glibc macros of this Linux host; the model's bit arithmetic is compared with them on every case",
-    "hand-written Gallina model (no translator); Subprocess.STREAM pipes, uninitialize(), the win32 branch and future cancellation are not modelled",
+    "hand-written Gallina model (no translator); Subprocess.STREAM pipes, the win32 branch and future cancellation are not modelled",
 ]
 ASSUMPTIONS = [
     "rely condition of the theorems: the pids handed out to Subprocess objects are pairwise distinct over the trace (sufficient form of 'the kernel never reuses the pid of an unreaped child'); "
     "traces breaking it are still compared with the model but nothing is required of them",
     "wait statuses are C ints (|st| < 2^31)",
 ]
-RULE = ("EVERY trace over {exit, SIGCHLD, set_exit_callback, wait_for_exit, loop turn} up to a length bound for one child and for two children (quick: 4 / 3; thorough: 6 / 5), "
+RULE = ("EVERY trace over {exit, SIGCHLD, set_exit_callback, wait_for_exit, loop turn (+ uninitialize / initialize)} up to a length bound for one, two and three children (quick: 4 / 3 / 2; thorough: 6 (4 with initialize+uninitialize) / 5 / 4), "
         "structured random interleavings of 1..4 children (all orders of exit vs registration, coalesced / missing SIGCHLD, re-registration, "
         "boundary wait statuses: every exit code and signal, core-dump flag, stopped/continued-shaped, negative), a malformed stream (unknown objects and pids, duplicate pids, duplicate exits), "
         "and real `sh` children for sampled exit codes and signals. distinct by canonical event list; non-trivial = at least one callback ran or an assertion fired")
@@ -124,6 +124,10 @@ def coq_input(case):
             out.append("EWait %s %s %s" % (G.gnat(e[1]), G.gnat(e[2]), G.gbool(e[3])))
         elif k == "loop":
             out.append("ELoop")
+        elif k == "init":
+            out.append("EInit")
+        elif k == "uninit":
+            out.append("EUninit")
         else:
             raise ValueError(k)
     return G.glist(out, "event")
@@ -323,6 +327,10 @@ def run_scripted(events):
             elif k == "loop":
                 for _ in range(3):
                     await asyncio.sleep(0)
+            elif k == "init":
+                tp.Subprocess.initialize()
+            elif k == "uninit":
+                tp.Subprocess.uninitialize()
         obs = _observe(rec, tp)
         tp.Subprocess.uninitialize()
         return obs
@@ -345,7 +353,7 @@ def run_real(case):
     rec = _Recorder()
     ch = case["real"]
 
-    async def spin(cond, limit=5.0):
+    async def spin(cond, limit=30.0):
         t0 = time.time()
         for _ in range(3):
             await asyncio.sleep(0)
@@ -383,7 +391,7 @@ def run_real(case):
                 for o in rec.objs:
                     o.proc.stdin.close()
                 t0 = time.time()
-                while not all(_is_zombie(o.pid) for o in rec.objs) and time.time() - t0 < 10:
+                while not all(_is_zombie(o.pid) for o in rec.objs) and time.time() - t0 < 60:
                     time.sleep(0.001)
             finally:
                 signal.pthread_sigmask(signal.SIG_UNBLOCK, {signal.SIGCHLD})
@@ -430,52 +438,71 @@ def py_decode(st):
     return -low
 
 
-def expected_child(ev, sid):
-    """(calls, rc, has_cb, futs) for object sid, from positions in the trace; None if sid is never created."""
-    spawns = [i for i, e in enumerate(ev) if e[0] == "spawn"]
-    if sid >= len(spawns):
-        return None
-    born = spawns[sid]
-    pid = ev[born][1]
-    exits = [i for i, e in enumerate(ev) if i > born and e[0] == "exit" and e[1] == pid]
-    regs = [i for i, e in enumerate(ev) if i > born and e[0] in ("reg", "wait") and e[1] == sid]
-    reap = report = None
-    if exits:
-        died = exits[0]
-        st = ev[died][2]
-        probes = [i for i in regs if i > died] + [i for i, e in enumerate(ev) if e[0] == "chld" and i > died and any(r < i for r in regs)]
-        if probes:
-            reap = min(probes)
-            loops = [i for i, e in enumerate(ev) if e[0] == "loop" and i > reap]
-            if loops:
-                report = loops[0]
-    futs = [[ev[i][2], G.Tag("pending")] for i in regs if ev[i][0] == "wait"]
-    widx = [i for i in regs if ev[i][0] == "wait"]
+def expected_all(ev):
+    """Independent forward account of every object: list of (calls, rc, has_cb, futs), for traces with distinct pids."""
+    objs = []
+    handler = False
+    for e in ev:
+        k = e[0]
+        if k == "spawn":
+            objs.append({"pid": e[1], "dead": None, "reaped": False, "todo": False, "rc": None, "slot": None,
+                         "inw": False, "futs": [], "late": [], "calls": []})
+        elif k == "exit":
+            for o in objs:
+                if o["pid"] == e[1] and o["dead"] is None:
+                    o["dead"] = e[2]
+        elif k == "init":
+            handler = True
+        elif k == "uninit":
+            handler = False
+        elif k in ("reg", "wait"):
+            if e[1] >= len(objs):
+                continue
+            o = objs[e[1]]
+            fut = None
+            if k == "wait":
+                fut = len(o["futs"])
+                o["futs"].append([e[2], G.Tag("pending")])
+            cb = (e[2], fut, e[3] if k == "wait" else None)
+            if o["rc"] is not None:
+                o["late"].append(cb)
+                continue
+            o["slot"] = cb
+            handler = True
+            o["inw"] = True
+            if o["dead"] is not None and not o["reaped"]:
+                o["reaped"], o["todo"], o["inw"] = True, True, False
+        elif k == "chld":
+            if handler:
+                for o in objs:
+                    if o["inw"] and o["dead"] is not None and not o["reaped"]:
+                        o["reaped"], o["todo"], o["inw"] = True, True, False
+        elif k == "loop":
+            for sid, o in enumerate(objs):
+                def fire(cb, rc, o=o, sid=sid):
+                    o["calls"].append([sid, G.Tag("call"), cb[0], rc])
+                    if cb[1] is not None:
+                        o["futs"][cb[1]] = ([cb[0], G.Tag("CalledProcessError"), rc] if (rc != 0 and cb[2])
+                                            else [cb[0], G.Tag("result"), rc])
+                if o["todo"]:
+                    o["todo"] = False
+                    rc = py_decode(o["dead"])
+                    if rc is None:
+                        o["calls"].append([sid, G.Tag("assert")])
+                    else:
+                        o["rc"] = rc
+                        cb, o["slot"] = o["slot"], None
+                        if cb is not None:
+                            fire(cb, rc)
+                for cb in o["late"]:
+                    fire(cb, o["rc"])
+                o["late"] = []
+    return [(o["calls"], o["rc"], o["slot"] is not None, o["futs"]) for o in objs]
 
-    def settle(i, rc):
-        e = ev[i]
-        if e[0] == "wait":
-            k = widx.index(i)
-            futs[k] = [e[2], G.Tag("CalledProcessError"), rc] if (rc != 0 and e[3]) else [e[2], G.Tag("result"), rc]
-    calls, rc = [], None
-    if report is None:
-        has_cb = bool(regs)
-    else:
-        rc = py_decode(st)
-        if rc is None:
-            calls = [[sid, G.Tag("assert")]]
-            has_cb = bool(regs)
-        else:
-            has_cb = False
-            last = max(i for i in regs if i < report)
-            calls = [[sid, G.Tag("call"), ev[last][2], rc]]
-            settle(last, rc)
-            # registrations made after the report: callback(returncode) is queued and runs at the next loop turn
-            for i in regs:
-                if i > report and any(e[0] == "loop" and k > i for k, e in enumerate(ev)):
-                    calls.append([sid, G.Tag("call"), ev[i][2], rc])
-                    settle(i, rc)
-    return calls, rc, has_cb, futs
+
+def expected_child(ev, sid):
+    a = expected_all(ev)
+    return a[sid] if sid < len(a) else None
 
 
 def _same(a, b):
@@ -503,8 +530,9 @@ def py_check(case, o):
     for ent in log:
         if not (isinstance(ent, list) and ent and isinstance(ent[0], int) and 0 <= ent[0] < n):
             return False
+    exp = expected_all(ev)
     for sid in range(n):
-        calls, rc, has_cb, futs = expected_child(ev, sid)
+        calls, rc, has_cb, futs = exp[sid]
         mine = [ent for ent in log if ent[0] == sid]
         if not _same(mine, calls):
             return False
@@ -546,13 +574,20 @@ def corpus_cases():
     c.append(mk([["spawn", 5], ["reg", 0, 0], ["exit", 5, 0], ["chld"], ["reg", 0, 1], ["loop"], ["spawn", 5], ["exit", 5, 256], ["chld"], ["loop"], ["reg", 1, 2], ["loop"], ["chld"], ["loop"]]))
     # late wait_for_exit with raise_error on a failed child, late plain callback, two late registrations in one turn
     c.append(mk([["spawn", 5], ["reg", 0, 0], ["exit", 5, 9], ["chld"], ["loop"], ["wait", 0, 1, True], ["reg", 0, 2], ["wait", 0, 3, False], ["loop"], ["wait", 0, 4, True]]))
+    # uninitialize(): SIGCHLD is ignored until the handler is installed again (by initialize() or by a registration)
+    c.append(mk([["spawn", 5], ["reg", 0, 0], ["uninit"], ["exit", 5, 256], ["chld"], ["loop"], ["init"], ["chld"], ["loop"]]))
+    c.append(mk([["spawn", 5], ["spawn", 6], ["reg", 0, 0], ["uninit"], ["exit", 5, 256], ["chld"], ["loop"], ["wait", 1, 1, True], ["chld"], ["loop"]]))
+    # five children registered, all die, ONE SIGCHLD (seeded change C42_2)
+    c.append(mk([["spawn", 10 + i] for i in range(5)] + [["reg", i, i] for i in range(5)] + [["exit", 10 + i, 256 * i] for i in (3, 1, 4, 0, 2)] + [["chld"], ["loop"]]))
+    # handler already installed, child dies and its SIGCHLD goes by before registration (seeded change C42_1)
+    c.append(mk([["init"], ["spawn", 5], ["exit", 5, 0], ["chld"], ["loop"], ["reg", 0, 0], ["loop"]]))
     c.append({"real": [{"how": "exit", "code": 3, "when": "before", "kind": "plain"}, {"how": "sig", "code": 9, "when": "after", "kind": "wait_raise"}]})
     return c
 
 
-def enum_traces(nchild, maxlen, st):
+def enum_traces(nchild, maxlen, st, extra=()):
     pids = [10 + i for i in range(nchild)]
-    alpha = [["chld"], ["loop"]]
+    alpha = [["chld"], ["loop"]] + [[x] for x in extra]
     for i, p in enumerate(pids):
         alpha.append(["exit", p, st[i % len(st)]])
         alpha.append(["reg", i, None])
@@ -595,6 +630,7 @@ def random_structured(rng):
             s.append(["exit", p, rng.choice(STATUSES)])      # a second exit of the same pid is a no-op
         seqs.append(s)
     # spawn events first or interleaved
+    uninit_ok = rng.random() < 0.3
     ev = []
     pos = [0] * k
     spawned = [False] * k
@@ -607,6 +643,8 @@ def random_structured(rng):
             ev.append(["chld"])
         elif r < 0.36:
             ev.append(["loop"])
+        elif r < 0.40 and uninit_ok:
+            ev.append(["uninit"] if rng.random() < 0.6 else ["init"])
         elif choices:
             i = rng.choice(choices)
             if not spawned[i]:
@@ -648,7 +686,9 @@ def random_malformed(rng):
             ev.append(["chld"])
         elif r < 0.7:
             ev.append(["loop"])
-        elif r < 0.85:
+        elif r < 0.76:
+            ev.append(rng.choice([["init"], ["uninit"]]))
+        elif r < 0.88:
             ev.append(["reg", rng.randrange(0, 5), lab])
             lab += 1
         else:
@@ -690,11 +730,17 @@ def gen_cases(rng, tier):
         for _ in range(1500):
             out.append(random_structured(rng))
         return out
-    l1, l2 = (4, 3) if tier == "quick" else (6, 5)
-    sts = [[256], [9]] if tier == "quick" else [[256], [9 + 128], [0]]
-    for i, st in enumerate(sts):
-        out += list(enum_traces(1, l1 if i == 0 else l1 - 1, st))
-    out += list(enum_traces(2, l2, [0, 15]))
+    if tier == "quick":
+        out += list(enum_traces(1, 4, [256], ("uninit",)))
+        out += list(enum_traces(1, 3, [9], ("init", "uninit")))
+        out += list(enum_traces(2, 3, [0, 15], ("uninit",)))
+        out += list(enum_traces(3, 2, [0, 15, 512]))
+    else:
+        out += list(enum_traces(1, 6, [256]))
+        out += list(enum_traces(1, 4, [9 + 128], ("init", "uninit")))
+        out += list(enum_traces(1, 4, [0], ("uninit",)))
+        out += list(enum_traces(2, 5, [0, 15], ("uninit",)))
+        out += list(enum_traces(3, 4, [0, 15, 512]))
     # every exit code / signal through the decoding, both orders
     for c in range(256):
         if tier == "thorough" or c % 5 == 0 or c in (1, 2, 127, 128, 254, 255):
